@@ -10,7 +10,11 @@
 (*   Keys     hashed and binary-searched lookups return a record carrying the key; absent -> none   *)
 (*   Write    accepted; len = 20 + n*rs + sb with the header fields read from the written bytes;    *)
 (*            n and rs equal the spec's values; no string occurs twice in the block; offset 0 = ""  *)
-(*   Reparse  the written bytes parse with the same schema to the same values / strings             *)
+(*   Reparse  the written bytes parse with the same schema to the same values / strings, also with   *)
+(*            string caching enabled                                                                *)
+(* Input tables use string references of every kind the format allows (start of a string, inside a   *)
+(* string = shared suffix, a terminating NUL, offset 0, last byte of the block; kinds chosen by TLC); *)
+(* the source token is rendered from the text each reference denotes (RefTextLen / Locate).          *)
 (* D-conjuncts (DRIFT): the builder's own header against the spec, field_count of the written       *)
 (* header against FieldCount, block order against Intern.                                          *)
 EXTENDS DbcLayout, Json, IOUtils, TLCExt
@@ -42,7 +46,9 @@ WriteP(e) == IF e.res # "ok" THEN <<FALSE, "write-rejected">>
              ELSE IF e.hdr[1] # tcase.n \/ e.hdr[3] # RecordSize(Sch) THEN <<FALSE, "header-count-or-record-size">>
              ELSE IF ~(Len(e.block) >= 1 /\ e.block[1] = <<0, 0>>) THEN <<FALSE, "block-offset0-not-empty">>
              ELSE <<\A ta, tb \in 1..Len(e.block) : (ta # tb /\ e.block[ta][2] # -1) => e.block[ta][2] # e.block[tb][2], "string-stored-twice">>
-ReparseP(e) == IF e.res # "ok" THEN <<FALSE, "reparse-failed">> ELSE <<e.rtok = tsrc.rtok, "reparse-values">>
+ReparseP(e) == IF e.res # "ok" THEN <<FALSE, "reparse-failed">>
+               ELSE IF e.rtok # tsrc.rtok THEN <<FALSE, "reparse-values">>
+               ELSE <<e.ctok = tsrc.rtok, "reparse-cached-strings">>
 
 PofEvent(e) == CASE e.ev = "Parse0"  -> ParseP(e)
                  [] e.ev = "Paths"   -> PathsP(e)
@@ -54,7 +60,7 @@ PofEvent(e) == CASE e.ev = "Parse0"  -> ParseP(e)
                  [] e.ev \in {"Reset", "Build"} -> <<TRUE, "">>
                  [] OTHER -> Assert(FALSE, <<"unknown event", e.ev>>)
 DofEvent(e) == CASE e.ev = "Routes" -> <<{[kind |-> e.routes[tk].kind, a |-> e.routes[tk].a, b |-> e.routes[tk].b] : tk \in 1..Len(e.routes)} = RoutesFor(tcase.n), "route-set">>
-                 [] e.ev = "Build" -> <<e.hdr[2] = FieldCount(Sch) /\ e.hdr[3] = RecordSize(Sch) /\ e.len = FileSize(tcase.n, RecordSize(Sch), e.hdr[4]), "builder-layout">>
+                 [] e.ev = "Build" -> IF ~(\A tk \in 1..Len(e.refkinds) : e.refkinds[tk] \in RefKinds) THEN <<FALSE, "ref-kinds">> ELSE <<e.hdr[2] = FieldCount(Sch) /\ e.hdr[3] = RecordSize(Sch) /\ e.len = FileSize(tcase.n, RecordSize(Sch), e.hdr[4]), "builder-layout">>
                  [] e.ev = "Write" -> IF e.res = "ok" /\ e.hdr[2] # FieldCount(Sch) THEN <<FALSE, "field-count-written">>
                                       ELSE <<e.res # "ok" \/ Len(e.block) = tsrc.nstr + (IF tsrc.hasEmpty THEN 0 ELSE 1), "block-string-count">>
                  [] OTHER -> <<TRUE, "">>
